@@ -68,4 +68,11 @@ theorem cuckoo_with_params_translated {R : Type} (rng : R) (bs nb lf : Nat) :
     (Cuckoo.new rng bs nb lf).isSome ↔ (cuckoo_with_params bs nb lf = Flow.ret (nb * bs) ∧ lf * (nb * bs) < 2 ^ 64) :=
   cuckoo_with_params_eq rng bs nb lf
 
+/-- `BloomFilter::union` as translated (both `assert_eq!`, the bitwise or of the two bit sets) is the model's `union` -/
+theorem bloom_union_translated (s o : Bloom.St) :
+    bloom_union s.k s.bits.toList o.k o.bits.toList =
+      match Bloom.union s o with
+      | none => Flow.panic
+      | some s' => Flow.cont s'.bits.toList := bloom_union_eq s o
+
 end Pds.Tie.C01
